@@ -34,6 +34,8 @@ pub struct Draft {
     pub pad_target: Option<usize>,
     /// v1-2 only: mint the event id under another server's name (Byzantine)
     pub foreign_id_server: Option<String>,
+    /// Byzantine: replace `hashes.sha256` by this value and sign the result correctly
+    pub bad_hash: Option<String>,
 }
 
 fn o(pairs: Vec<(&str, J)>) -> J {
@@ -260,12 +262,21 @@ impl<'a> Sim<'a> {
                 return None;
             }
         }
+        if let (Some(h), Kind::Byz) = (&d.bad_hash, self.servers[n].kind) {
+            // a correctly signed event whose stored content hash is wrong / short / empty
+            j.set("hashes", o(vec![("sha256", J::Str(h.clone()))]));
+            j.set("signatures", J::obj());
+            if !self.countersign(n, &mut j) {
+                return None;
+            }
+            self.bump("byz.bad-stored-hash");
+        }
         // an invite created from a third-party invite does not need its sender's server's
         // signature: sometimes only another server signs it
         let is_tpi_invite = d.ty == "m.room.member"
             && d.content.get("membership").and_then(|m| m.as_str()) == Some("invite")
             && d.content.get("third_party_invite").is_some_and(|x| x.as_obj().is_some());
-        if is_tpi_invite && self.servers.len() > 1 && self.t.chance(1, 3) {
+        if is_tpi_invite && d.bad_hash.is_none() && self.servers.len() > 1 && self.t.chance(1, 3) {
             let mut other = self.t.index(self.servers.len() - 1);
             if other >= n {
                 other += 1;
@@ -732,10 +743,20 @@ impl<'a> Sim<'a> {
             }
             8 if view.v <= 2 => {
                 // v1-2: mint the event id under another server's name
-                let other = self.servers[self.t.index(self.servers.len())].name.clone();
+                let mut other = self.servers[self.t.index(self.servers.len())].name.clone();
+                if self.t.chance(1, 3) {
+                    // the same host under another port is another server name
+                    let own = self.servers[n].name.clone();
+                    let host = if own.starts_with('[') { own.split(']').next().unwrap_or("").to_string() + "]" } else { own.split(':').next().unwrap_or("").to_string() };
+                    other = if own == host { format!("{host}:8448") } else { host };
+                }
                 d.foreign_id_server = Some(other);
                 d.label.push_str("+foreign-event-id");
                 self.flag("byz.foreign-event-id");
+            }
+            8 => {
+                d.bad_hash = Some((*self.t.pick(&["abcd", "", "AAAAAAAAAAAAAAAAAAAAAAAAAAAAAAAAAAAAAAAAAAA", "AAAAAAAAAAAAAAAAAAAAAAAAAAAAAAAAAAAAAAAAAAAAAAAA"])).to_string());
+                d.label.push_str("+bad-hash");
             }
             7 => {
                 // power escalation
